@@ -92,7 +92,38 @@ def c07(payload):
                     bad.append('source %d power %r is not Re(V I*)/2 = %r' % (k, s.power, p))
             if abs(m.power - sum(0.5 * (s.voltage * np.conj(m.current[s.idx])).real for s in m.sources)) > 1e-12 * sum(abs(s.voltage) * abs(s.current) for s in m.sources):
                 bad.append('total power is not the sum of the source powers')
-            r['checks'] = 5
+            # (e) the SOURCE DATA block of the report: per source, the printed impedance and power are V/I and Re (V I*) / 2 of the
+            #     printed voltage and current
+            import re as _re
+            blk = m.source_data_as_mininec()
+            ents = _re.findall(r'VOLTAGE = \(\s*(\S+)\s*,\s*(\S+)\s*J\)\s*\n\s*CURRENT = \(\s*(\S+)\s*,\s*(\S+)\s*J\)\s*\n\s*IMPEDANCE = \(\s*(\S+)\s*,\s*(\S+)\s*J\)\s*\n\s*POWER =\s*(\S+)\s+WATTS', blk)
+            if len(ents) != len(m.sources):
+                bad.append('SOURCE DATA lists %d sources, the model has %d' % (len(ents), len(m.sources)))
+            for k, (e_, s_) in enumerate(zip(ents, m.sources)):
+                v_ = complex(float(e_[0]), float(e_[1])); i_ = complex(float(e_[2]), float(e_[3])); z_ = complex(float(e_[4]), float(e_[5])); p_ = float(e_[6])
+                if abs(i_) > 0 and abs(z_ - v_ / i_) > 2e-5 * abs(v_ / i_):
+                    bad.append('SOURCE DATA of source %d: printed impedance %r is not printed V / I = %r' % (k, z_, v_ / i_))
+                pw = 0.5 * (v_ * i_.conjugate()).real
+                if abs(p_ - pw) > 2e-5 * 0.5 * abs(v_) * abs(i_) + 1e-30:
+                    bad.append('SOURCE DATA of source %d: printed power %r W is not Re (V I*) / 2 = %r W of the printed voltage and current' % (k, p_, pw))
+            # (f) the same sources through the command line, one of them held at 0 V: a valid computation (positive total power)
+            #     ends in a report
+            if all(w.get('tag') is not None or not w.get('taper') for w in spec['wires']) and all(l['kind'] == 'imp' for l in spec['loads']) \
+               and all(len(a_) == 1 for l in spec['loads'] for a_ in l['attach']):
+                import io as _io, contextlib as _cl
+                from mininec.mininec import main as _main
+                for zero in ([None] if len(spec['sources']) < 2 else [None, rng.randrange(len(spec['sources']))]):
+                    sp_ = copy.deepcopy(spec)
+                    if zero is not None: sp_['sources'][zero]['v'] = [0.0, 0.0]
+                    mz = _solve(sp_)
+                    if not (np.isfinite(mz.power) and mz.power > 0):
+                        continue
+                    so_, se_ = _io.StringIO(), _io.StringIO()
+                    with _cl.redirect_stdout(so_):
+                        rc_ = _main(gen.to_argv(sp_) + ['--theta=10,30,2', '--phi=0,90,2'], f_err=se_)
+                    if rc_:
+                        bad.append('a valid computation%s is refused by the command line: %s' % (' with source %d at 0 V' % zero if zero is not None else '', se_.getvalue().strip()[:160]))
+            r['checks'] = 7
             r['bad'] = bad
             r['nsrc'] = len(spec['sources'])
             r['gnd_src'] = any(s['pulse'] in gnd for s in spec['sources'])
